@@ -3,7 +3,7 @@
 the real PGM-index templates to CBMC's C front end.  Scratch feasibility probe, not framework code."""
 import re, sys, os
 
-OPTS = {'narrow': 0, 'noop': [], 'unreachable': [], 'unreachable_def': []}   # noop: regexes of void functions given an empty body (logging / memory accounting of third-party code)
+OPTS = {'narrow': 0, 'noop': [], 'unreachable': [], 'unreachable_def': [], 'frame_stores': False}   # noop: regexes of void functions given an empty body (logging / memory accounting of third-party code)
 #   # narrow=B: wide mul/div/int->fp are computed on B-bit signed operands under a CHECKED assertion that the operands fit
 
 class Ty:
@@ -500,6 +500,7 @@ def instr(s, ins, decls):
         setd(ty, '*(%s)' % pv); return
     if op == 'store':
         ty, v = s.tv(p); p.expect(','); pt, pv = s.tv(p)
+        if OPTS['frame_stores']: s.emit('RT_FRAME_STORE(%s);' % pv)     # C16: while a frame is registered, no store may hit it
         lv = s.split_access(pv, ty)
         if lv:
             g.stats['split_store'] += 1
@@ -731,6 +732,7 @@ def call(s, op, p, dst, decls):
 def intrinsic(s, nm, rty, args):
     g = s.g; av = [v for _, v in args]
     if nm.startswith(('llvm.lifetime.', 'llvm.dbg.', 'llvm.experimental.noalias', 'llvm.invariant.', 'llvm.prefetch.')): return None
+    if OPTS['frame_stores'] and nm.startswith(('llvm.memcpy.', 'llvm.memmove.', 'llvm.memset.')): s.emit('RT_FRAME_STORE(%s);' % av[0])
     if nm.startswith(('llvm.memcpy.', 'llvm.memmove.')):
         e = s.typed_memcpy(av[0], av[1], av[2], nm.startswith('llvm.memmove.'))
         if e is not None: s.emit(e); return None
@@ -963,7 +965,7 @@ def translate(m, roots):
         if 'verif_new_array' in fn:
             f = m.funcs[fn]; et = g.cty(f.ret.to)
             hdr = '%s %s(unsigned long v_n)' % (g.cty(f.ret), fname(fn))
-            body = hdr + ' { %s *p_ = malloc(sizeof(%s) * v_n); RT_ASSUME(p_ != 0); return p_; }\n' % (et, et)
+            body = hdr + ' { %s *p_ = malloc(sizeof(%s) * v_n); RT_ASSUME(p_ != 0); RT_FRAME_NOTE_ALLOC(p_); return p_; }\n' % (et, et)
             protos.append(hdr + ';'); bodies.append(body); continue
         hdr, body = FG(g, m.funcs[fn]).gen()
         protos.append(hdr + ';'); bodies.append(body)
